@@ -5,7 +5,7 @@ ID = "C12"
 BIN = "c12"
 PROOF_MODULES = ["Compute.Props.C12"]
 REQUIRED_THEOREMS = ["Cv.C12.broadcast_total", "Cv.C12.broadcast_shape", "Cv.C12.broadcast_entry"]
-RULE = ("size-boundary shapes (7..9, 15..17, 31..33, 40, products around 1024) against row / column / scalar partners in both orders; every shape pair with rows, cols in 1..6 (1296 pairs) x 4 operators x {mm, mv, vm} x 4 ownership "
+RULE = ("special-value stratum (every classifier leaf x operator x operand kind with NaN / inf / signed zeros / subnormals in the data and as the 1x1 operand); size-boundary shapes (7..9, 15..17, 31..33, 40, products around 1024) against row / column / scalar partners in both orders; every shape pair with rows, cols in 1..6 (1296 pairs) x 4 operators x {mm, mv, vm} x 4 ownership "
         "forms with distinct entries, plus random shapes up to 40x40; non-trivial = distinct (op, kind, shapes) class")
 EXHAUSTIVE = {"quick": False, "thorough": False}
 NOT_PROVED = []
@@ -67,6 +67,35 @@ def gen(rng, tier):
             if r1 == 1:
                 lines.append(mk(op, "vm", own, 1, c1, r2, c2, data(rng, c1, 1.0), data(rng, r2 * c2, 100.0)))
     cover["boundary_shape_lines"] = len(bshapes)
+    # special-value stratum: every leaf of the classifier (equal shapes, row / column / outer / 1x1 on either side) x every operator
+    # x operand kinds with IEEE special values in the data, and in particular a 1x1 / length-1 operand that IS a special value
+    # (+0, -0, inf, -inf, NaN, 1, -1, subnormal): a route that replaces `x op s` by a shortcut (zero-fill for s = 0, copy for
+    # s = 1, reciprocal-multiply, sign flips) is only visible on these bit patterns (round-6 seed C12n).
+    SPEC = [0.0, -0.0, float("inf"), float("-inf"), float("nan"), 1.0, -1.0, 5e-324, -2.5, 1e308, 2.0 ** -1070]
+    def sdata(n, k):
+        # a mix of negative, zero, infinite, NaN and ordinary entries in a position-dependent but deterministic order
+        pool = [-3.5, 0.0, -0.0, float("inf"), float("-inf"), float("nan"), 7.25, -1e-310, 1e308, 0.1]
+        return [pool[(i * 7 + k) % len(pool)] for i in range(n)]
+    leafs = [((2, 3), (2, 3)), ((2, 3), (1, 3)), ((1, 3), (2, 3)), ((2, 3), (2, 1)), ((2, 1), (2, 3)), ((3, 1), (1, 2)), ((1, 2), (3, 1)),
+             ((2, 3), (1, 1)), ((1, 1), (2, 3)), ((1, 1), (1, 1)), ((1, 4), (1, 1)), ((1, 1), (1, 4)), ((4, 1), (1, 1)), ((1, 1), (4, 1)),
+             ((3, 3), (1, 1)), ((1, 1), (3, 3))]
+    nspec = 0
+    for li, ((r1, c1), (r2, c2)) in enumerate(leafs):
+        for oi, op in enumerate(OPS):
+            scal = SPEC if tier == "thorough" else [SPEC[(li + oi + j * 3) % len(SPEC)] for j in range(5)] + [0.0, -0.0]
+            for si, sv in enumerate(scal if (r1 * c1 == 1 or r2 * c2 == 1) else [None]):
+                d1 = [sv] if (r1 * c1 == 1 and sv is not None) else sdata(r1 * c1, li + oi)
+                d2 = [sv] if (r2 * c2 == 1 and sv is not None and r1 * c1 != 1) else sdata(r2 * c2, li + oi + 3)
+                if r1 * c1 == 1 and r2 * c2 == 1 and sv is not None:
+                    d2 = [SPEC[(si + 4) % len(SPEC)]]
+                owns = range(4) if tier == "thorough" else [(li + oi + si) % 4, (li + oi + si + 2) % 4]
+                for own in owns:
+                    lines.append(mk(op, "mm", own, r1, c1, r2, c2, d1, d2)); nspec += 1
+                    if r2 == 1:
+                        lines.append(mk(op, "mv", own, r1, c1, 1, c2, d1, d2)); nspec += 1
+                    if r1 == 1:
+                        lines.append(mk(op, "vm", own, 1, c1, r2, c2, d1, d2)); nspec += 1
+    cover["special_value_lines"] = nspec
     nrand = 300 if tier == "quick" else 6000
     for _ in range(nrand):
         r, c = rng.randint(1, 40), rng.randint(1, 40)
